@@ -73,6 +73,15 @@ var constructs = []string{
 	`{ users { __typename { x } } }`,
 	`{ a: count a: users { id } }`,
 	`{ users { id: name id } }`,
+	// one alias for an object field and a scalar field below the top level, in both orders, and through fragments
+	`{ users { x: friend { name } x: name } }`,
+	`{ users { x: name x: friend { name } } }`,
+	`{ users { x: items { id } x: friend { id } } }`,
+	`{ users { items { o: owner { id } o: name } } }`,
+	`{ users { ...A ...B } } fragment A on User { x: name } fragment B on User { x: friend { id } }`,
+	`{ users { ...B ...A } } fragment A on User { x: name } fragment B on User { x: friend { id } }`,
+	`{ things { ... on User { x: friend { id } x: age } } }`,
+	`{ users { x: friend { id } x: friend } }`,
 	`{ things { ... on Nope { id } } }`,
 	`{ things { name } }`,
 	`{ things { ... on User { ... on Item { id } } } }`,
@@ -385,7 +394,7 @@ func init() {
 		Item: func(name string) *explore.Item { return fedItem(strings.TrimPrefix(name, "federation ")) },
 		Rule: "part (d), federation: a three-service gateway request in which one sibling sub-query fails (the error group cancels the others, including one that is blocked on its context), and a gateway request cancelled by a thread, under every schedule within the deviation bound (gateway construction runs on the default schedule); oracle: the request returns and no thread stays blocked"})
 	reg.Register(&reg.Harness{Property: "C15", Name: "c15/tokens", Level: "model_checking", Run: runTokens,
-		Rule: "sequential part (a): every sequence of <=4 (thorough 5) tokens over a 28-token GraphQL alphabet, bare and in two wrappers, plus fragments of 5 type conditions (matching, foreign, union, root, unknown) x 5 positions x 11 bodies (fields of the enclosing type / of the named type only / unknown / wrong shape) inline and as named spreads, plus 51 hand-written constructs (inline fragments without type condition, subscriptions, directive misuse, duplicate args/variables, fragment cycles, numeric overflow, conflicting aliases, wrong fragments under unions, ...) x 13 JSON variable maps, through Parse -> PrepareQuery -> Execute; oracle: an error or a result, never a panic. non-trivial = inputs that pass the parser"})
+		Rule: "sequential part (a): every sequence of <=4 (thorough 5) tokens over a 28-token GraphQL alphabet, bare and in two wrappers, plus fragments of 5 type conditions (matching, foreign, union, root, unknown) x 5 positions x 11 bodies (fields of the enclosing type / of the named type only / unknown / wrong shape) inline and as named spreads, plus 59 hand-written constructs (inline fragments without type condition, subscriptions, directive misuse, duplicate args/variables, fragment cycles, numeric overflow, conflicting aliases, wrong fragments under unions, ...) x 13 JSON variable maps, through Parse -> PrepareQuery -> Execute; oracle: an error or a result, never a panic. non-trivial = inputs that pass the parser"})
 	reg.Register(&reg.Harness{Property: "C15", Name: "c15/growth", Level: "model_checking", Run: runGrowth,
 		Rule: "sequential part (b): six input families (fragment-spread bombs, repeated aliases, deep nesting, wide and nested inline fragments) at depth d and 2d; the number of function entries executed inside package graphql (counted by instrumentation, no wall clock) may grow at most cubically with the input size"})
 	reg.Register(&reg.Harness{Property: "C15", Name: "c15/cancel-http", Level: "model_checking", Bounds: [2]int{2, 3}, Run: runCancel,
